@@ -7,6 +7,7 @@ every representation; the selection rule is checked clause by clause against evo
 with a rounding band at inexact thresholds and tol = 0 on exact grids.
 """
 import math
+import os
 
 import numpy as np
 
@@ -521,8 +522,60 @@ def k_cli(run, case):
     run.hit("evo_ape runs with time cropping judged" if rec else "evo_ape run refused / ambiguous (not judged)")
 
 
+def k_front(run, case):
+    """
+    A selection option spelled in front of the sub-command (evo_traj --downsample N tum FILE): the
+    command line is either refused (usage error, nothing exported) or the option takes effect -
+    it is never accepted and ignored.
+    """
+    import shutil
+    from vmon import cli, pipeline
+    from vmon.shadow import ShadowTrajectory
+    rng = run.rng(case)
+    work = os.path.join(os.environ.get("VMON_WORK", "."), "front_%d" % case["rs"][-1])
+    os.makedirs(work, exist_ok=True)
+    try:
+        n = int(rng.integers(5, 60))
+        arr = gen.traj_arrays(rng, n, pos_cls="walk", rot_cls="smooth", stamp_cls="small")
+        for k in range(1, n):
+            if arr["t"][k] <= arr["t"][k - 1]:
+                arr["t"][k] = arr["t"][k - 1] + 1e-3
+        open(os.path.join(work, "traj.txt"), "w").write(rm.write_tum_text(arr["t"], arr["p"], gen.quats_of(arr["R"])))
+        t, p, R, _ = rm.parse_tum(open(os.path.join(work, "traj.txt")).read())
+        which = ["downsample", "motion_filter"][rng.integers(2)]
+        if which == "downsample":
+            N = int(rng.integers(2, n))
+            opt = ["--downsample", str(N)]
+            want = pipeline.downsample_ids(n, N)
+        else:
+            d = float(np.sum(np.linalg.norm(np.diff(p, axis=0), axis=1))) / n * float(rng.uniform(1.5, 4))
+            opt = ["--motion_filter", repr(d), "170"]
+            try:
+                want = pipeline.motion_filter_ids(ShadowTrajectory(R, p, t), d, 170.0)
+            except (pipeline.Ambiguous, pipeline.Refuse):
+                return
+        argv = {0: opt + ["tum", "traj.txt"], 1: ["tum"] + opt + ["traj.txt"], 2: ["tum", "traj.txt"] + opt}[int(rng.integers(3))] + \
+            ["--save_as_tum", "--no_warnings"]
+        res = cli.run_cli("traj", argv, cwd=work)
+        out = os.path.join(work, "traj.tum")
+        run.seen(case, core.digest(p, argv), cls=["option position: %s %s" % (which, "before" if argv[0].startswith("--") else "after") + " the sub-command"],
+                 sample={"argv": argv, "exit": res.exit, "exported": os.path.exists(out)})
+        if res.exit == 2 and not os.path.exists(out):
+            run.hit("command line refused (usage error), nothing exported")
+            return
+        if not run.check(res.ok and os.path.exists(out), "accepted command line exports", case,
+                         "evo_traj %s: %r" % (argv, res), key="front:failure"):
+            return
+        te = rm.parse_tum(open(out).read())[0]
+        run.check(len(te) == len(want) and core.bits_equal(te, t[want]), "an accepted selection option takes effect", case,
+                  "evo_traj %s exported %d of %d poses, the option selects %d" % (argv, len(te), n, len(want)),
+                  key="front:option-ignored")
+    finally:
+        shutil.rmtree(work, ignore_errors=True)
+
+
 KINDS = {"downsample": k_downsample, "motion": k_motion, "crop": k_crop, "split": k_split,
-         "merge": k_merge, "cli": k_cli}
+         "merge": k_merge, "cli": k_cli, "front": k_front}
 
 
 def main(run):
@@ -543,7 +596,9 @@ def main(run):
         k_cli(run, run.case("cli", 2 * 10**6 + i, tool="traj", fmt=["tum", "euroc"][i % 2],
                             force={"use_ref": True, "merge": True, "sync": False, "align": False, "align_origin": False,
                                    "correct_scale": False}))
-    run.need("evo_traj runs with filtering of trajectories and reference judged", "evo_ape runs with time cropping judged", "downsample: count == min(N, count)", "downsample: evenly spaced by index",
+    for i in run.mine({"quick": 45, "thorough": 600}[run.tier]):
+        k_front(run, run.case("front", i))
+    run.need("an accepted selection option takes effect", "evo_traj runs with filtering of trajectories and reference judged", "evo_ape runs with time cropping judged", "downsample: count == min(N, count)", "downsample: evenly spaced by index",
              "downsample: last pose kept", "downsample: N<1 refused",
              "motion filter: kept => threshold reached",
              "motion filter: dropped => no threshold reached", "motion filter: exact-grid cases",
